@@ -45,6 +45,18 @@ def handle (j : Json) : Json :=
     match (do pure ((← dCtx (fld j "ctx")), (← dTerm (fld j "term")), (← dTRef (fld j "a")), (← dTRef (fld j "b"))) : D (Ctx × Pypika.Term × TRef × TRef)) with
     | .ok (c, t, a, b) => respondDoc j (render c (replaceT a b t))
     | .error e => Json.mkObj [("bad", Json.str e)]
+  | .ok "tagcalls" =>
+    -- names invented by a sequence of from_(sub with its own counter) / join calls on a statement whose counter is `count`
+    let r : D (Nat × List C10.TagCall) := do
+      let cs ← (← fArr j "calls").mapM (fun c => do
+        match (← (fld c "k").getStr?) with
+        | "from" => pure (C10.TagCall.from_ (← (fld c "sub").getNat?))
+        | "join" => pure C10.TagCall.join
+        | k => throw s!"tag call {k}")
+      pure ((← (fld j "count").getNat?), cs)
+    match r with
+    | .ok (count, cs) => Json.mkObj [("names", Json.arr ((C10.tagCalls count cs).map (fun n => Json.str (strOf n))).toArray)]
+    | .error e => Json.mkObj [("bad", Json.str e)]
   | .ok "renderSrc" =>
     match (do pure ((← dCtx (fld j "ctx")), (← dSrc (fld j "src"))) : D (Ctx × Src)) with
     | .ok (c, s) => respondDoc j (renderSrc c s)
